@@ -30,6 +30,7 @@ class Fail(Exception):
 
 
 USED_CONSTS = {}
+RULE_FIELDS = {}
 FINDALL_PATTERN = '\\{([^}]+)'
 DOTZERO_PATTERN = (r'^([+-]?[0-9]+)\.0\Z', r'\1')
 
@@ -57,6 +58,9 @@ class Tr:
         self.translated = set(translated)   # names of other translated functions
         self.nlift = 0
         self.pending = []
+        self.rule = None                    # name of the parameter holding one row of rml_df (fields -> `rule.<field>`)
+        self.input_cols = {}                # column name -> lean variable, for columns produced by an earlier call
+        self.sigs = {}                      # callee name -> (python parameter names, default nodes)
 
     # ---- names ----------------------------------------------------------------------------------
     def v(self, name):
@@ -90,6 +94,8 @@ class Tr:
     def expr(self, e):
         if isinstance(e, ast.Constant) and isinstance(e.value, str):
             return lean_str(e.value)
+        if isinstance(e, ast.Constant) and isinstance(e.value, int) and not isinstance(e.value, bool) and e.value >= 0:
+            return str(e.value)
         if isinstance(e, ast.Name):
             if e.id in self.types:
                 return self.v(e.id)
@@ -129,7 +135,14 @@ class Tr:
         raise Fail(f'expression {ast.unparse(e)[:60]}')
 
     def subscript(self, e):
+        if self.rule and isinstance(e.value, ast.Name) and e.value.id == self.rule:
+            if not (isinstance(e.slice, ast.Constant) and isinstance(e.slice.value, str) and e.slice.value.isidentifier()):
+                raise Fail(f'rule field {ast.unparse(e.slice)[:40]}')
+            RULE_FIELDS.setdefault(e.slice.value, None)
+            return f'rule.{e.slice.value}'
         if self.frame and isinstance(e.value, ast.Name) and e.value.id == self.frame:
+            if isinstance(e.slice, ast.Constant) and e.slice.value in self.input_cols:
+                return self.input_cols[e.slice.value]
             c = self.col(e.slice)
             if c:
                 return c
@@ -168,6 +181,8 @@ class Tr:
             return 'prims.onlyPrintable'
         if src == 'config.get_safe_percent_encoding' and not e.args and not kws:
             return 'prims.safe'
+        if src == 'config.get_output_format' and not e.args and not kws:
+            return 'prims.outputFormat'
         if isinstance(f, ast.Attribute):
             recv, m = f.value, f.attr
             # pandas string accessor: X.str.method(...)
@@ -213,6 +228,11 @@ class Tr:
             a, b = t.left, t.comparators[0]
             if isinstance(t.ops[0], ast.Eq):
                 return f'({self.expr(a)} = {self.expr(b)})'
+            if isinstance(t.ops[0], ast.NotEq):
+                return f'({self.expr(a)} ≠ {self.expr(b)})'
+            if isinstance(t.ops[0], ast.In) and isinstance(b, ast.List) and b.elts:
+                x = self.expr(a)
+                return '(' + ' ∨ '.join(f'{x} = {self.expr(el)}' for el in b.elts) + ')'
             if isinstance(t.ops[0], ast.In) and self.ty(b) == 'str':
                 return f'(Py.isInfix {self.expr(a)} {self.expr(b)} = true)'
             raise Fail(f'comparison {ast.unparse(t)[:60]}')
@@ -238,6 +258,17 @@ class Tr:
                     if len(n.targets) != 1:
                         raise Fail('multiple assignment targets')
                     t = n.targets[0]
+                    if isinstance(t, ast.Name) and t.id == self.frame and isinstance(n.value, ast.Call) \
+                            and isinstance(n.value.func, ast.Name) and n.value.func.id in self.sigs:
+                        call = n.value
+                        pnames, _ = self.sigs[call.func.id]
+                        pos = dict(zip(pnames, call.args)).get('position') or {k.arg: k.value for k in call.keywords}.get('position')
+                        if pos is None or not isinstance(pos, ast.Constant):
+                            raise Fail('position argument of a frame call')
+                        c = self.col(pos, create=True)
+                        if c not in [x for x, _ in out]:
+                            out.append((c, 'str'))
+                        continue
                     if isinstance(t, ast.Name):
                         ty = self.types.get(t.id) or self.ty(n.value)
                         self.types.setdefault(t.id, ty)
@@ -260,7 +291,14 @@ class Tr:
         for st in body:
             for n in ast.walk(st):
                 if isinstance(n, ast.Assign):
-                    got.add(self.target(n.targets[0]))
+                    t = n.targets[0]
+                    if isinstance(t, ast.Name) and t.id == self.frame and isinstance(n.value, ast.Call) \
+                            and isinstance(n.value.func, ast.Name) and n.value.func.id in self.sigs:
+                        pnames, _ = self.sigs[n.value.func.id]
+                        pos = dict(zip(pnames, n.value.args)).get('position') or {k.arg: k.value for k in n.value.keywords}.get('position')
+                        got.add(self.col(pos, create=True))
+                    else:
+                        got.add(self.target(t))
         return [x for x, _ in self.decl if x in got]
 
     @staticmethod
@@ -286,7 +324,49 @@ class Tr:
             monadic = monadic or m
         return lines, monadic, False
 
+    def frame_call(self, st, ind):
+        """`frame = _materialize_template(frame, value, kind, config, 'col', kw=…)` / `_materialize_fnml_execution(…)`:
+           row-wise, the call assigns the cell of the column named by its 5th argument"""
+        call = st.value
+        name = call.func.id
+        pnames, defaults = self.sigs[name]
+        if len(call.args) > len(pnames):
+            raise Fail(f'too many arguments in the call of {name}')
+        bound = dict(zip(pnames, call.args))
+        for k in call.keywords:
+            if k.arg is None or k.arg not in pnames or k.arg in bound:
+                raise Fail(f'keyword argument {k.arg} in the call of {name}')
+            bound[k.arg] = k.value
+        for pn, d in zip(pnames, defaults):
+            if pn not in bound:
+                if d is None:
+                    raise Fail(f'missing argument {pn} in the call of {name}')
+                bound[pn] = d
+        if not (isinstance(bound[pnames[0]], ast.Name) and bound[pnames[0]].id == self.frame):
+            raise Fail(f'{name} is not called on the frame')
+        if not (isinstance(bound['config'], ast.Name) and bound['config'].id == 'config'):
+            raise Fail(f'{name}: config argument')
+        pos = bound['position']
+        if not (isinstance(pos, ast.Constant) and isinstance(pos.value, str)):
+            raise Fail(f'{name}: the position argument is not a string constant')
+        tgt = self.col(pos, create=True)
+        self.pending = []
+        if name == '_materialize_template':
+            args = [self.expr(bound[k]) for k in ['template', 'expression_type', 'position', 'columns_alias', 'termtype', 'datatype']]
+            rhs = 'materialize_template prims row ' + ' '.join(args)
+        else:
+            if 'fnml_df' not in bound or 'fnml_execution' not in bound:
+                raise Fail(f'{name}: parameters')
+            args = [self.expr(bound[k]) for k in ['fnml_execution', 'position', 'termtype', 'datatype']]
+            rhs = 'prims.fnml row ' + ' '.join(args)
+        if self.pending:
+            raise Fail('row lookup in call arguments')
+        return [f'{ind}let {tgt} ← {rhs}'], True
+
     def stmt(self, st, ind):
+        if isinstance(st, ast.Assign) and isinstance(st.targets[0], ast.Name) and st.targets[0].id == self.frame \
+                and isinstance(st.value, ast.Call) and isinstance(st.value.func, ast.Name) and st.value.func.id in self.sigs:
+            return self.frame_call(st, ind)
         if isinstance(st, ast.Assign):
             self.pending = []
             rhs = self.expr(st.value)
@@ -359,19 +439,25 @@ class Tr:
         raise Fail(f'statement {ast.unparse(st)[:60]}')
 
 
-LEAN_TY = {'str': 'Str', 'list': 'List Str'}
+LEAN_TY = {'str': 'Str', 'list': 'List Str', 'nat': 'Nat', 'rule': 'PyRule'}
 DEFAULT = {'str': '[]', 'list': '[]'}
 
 
-def translate(fn, env, name, params, monad=None, frame=None, translated=(), ret_col=None, extra=None, raise_as=None, rty='Str'):
+def translate(fn, env, name, params, monad=None, frame=None, translated=(), ret_col=None, extra=None, raise_as=None, rty='Str',
+              body=None, rule=None, input_cols=None, sigs=None, ret_cols=None, doc_extra=''):
     """params: [(python name, type)] in Lean binder order; monad: None (pure), 'Option' or 'Except Model.MatErr';
        extra: [(binder text, argument text)] prepended to the parameters (and passed to the loop helpers)"""
     tr = Tr(env, params, frame=frame, translated=translated)
     tr.name, tr.monad, tr.raise_as, tr.helpers, tr.pending = name, monad, raise_as, [], []
     tr.extra = ' '.join(b for b, _ in (extra or []))
     tr.extra_args = ' '.join(a for _, a in (extra or []))
-    tr.param_binders = [(tr.v(p), t) for p, t in params]
-    body = strip_doc(fn.body)
+    tr.param_binders = [(tr.v(p) if t != 'rule' else 'rule', t) for p, t in params]
+    tr.rule, tr.sigs = rule, sigs or {}
+    tr.input_cols = {c: 'i_' + c for c in (input_cols or [])}
+    if body is not None:
+        body = body + [ast.Return(value=ast.Name(id=frame))]
+    else:
+        body = strip_doc(fn.body)
     if not body or not isinstance(body[-1], ast.Return):
         raise Fail('the function does not end in a return statement')
     if any(isinstance(n, ast.Return) for st in body[:-1] for n in ast.walk(st)):
@@ -384,7 +470,15 @@ def translate(fn, env, name, params, monad=None, frame=None, translated=(), ret_
         raise Fail('the function body ends in raise')
     lines += bl
     rv = body[-1].value
-    if frame and isinstance(rv, ast.Name) and rv.id == frame:
+    if frame and isinstance(rv, ast.Name) and rv.id == frame and ret_cols:
+        cs = []
+        for rc in ret_cols:
+            c = tr.cols.get(repr(rc))
+            if c is None:
+                raise Fail(f'column {rc} is never assigned')
+            cs.append(c)
+        r = '(' + ', '.join(cs) + ')'
+    elif frame and isinstance(rv, ast.Name) and rv.id == frame:
         c = tr.cols.get(ret_col)
         if c is None:
             raise Fail(f'the function returns the frame but never assigns column {ret_col}')
@@ -394,14 +488,14 @@ def translate(fn, env, name, params, monad=None, frame=None, translated=(), ret_
         r = tr.expr(rv)
         if tr.pending:
             raise Fail('row lookup in the return expression')
-    binders = ' '.join(f'({n} : {LEAN_TY[t]})' for n, t in tr.param_binders)
+    binders = ' '.join(f'({n} : {LEAN_TY[t]})' for n, t in tr.param_binders + [(v, 'str') for v in tr.input_cols.values()])
     if monad is None:
         head = f'def {name} {tr.extra} {binders} : {rty} :='
         lines.append(f'  {r}')
     else:
         head = f'def {name} {tr.extra} {binders} : {monad} ({rty}) := do'
         lines.append(f'  pure {r}')
-    doc = f'/-- translation of `{fn.name}`' + (' (row-wise: the cell of column `' + ret_col + '` for one row)' if frame else '') + (f'; `raise` is `{raise_as}`' if raise_as else '') + ' -/\n'
+    doc = f'/-- translation of `{fn.name}`' + (' (row-wise: the cell of column `' + ret_col + '` for one row)' if frame and ret_col and not doc_extra else '') + (f'; `raise` is `{raise_as}`' if raise_as else '') + doc_extra + ' -/\n'
     return '\n\n'.join(tr.helpers + [doc + '\n'.join([head] + lines)]), tr
 
 
@@ -414,6 +508,7 @@ def py_params(fn):
 
 def generate(src, env, out, summary):
     USED_CONSTS.clear()
+    RULE_FIELDS.clear()
     failures = []
     defs = []
     info = {}
@@ -463,9 +558,58 @@ def generate(src, env, out, summary):
     except (Fail, KeyError) as e:
         failures.append(f'_materialize_template: {e}')
 
+    # 4. materializer._materialize_rml_rule_terms, row-wise: the cells of the columns subject, predicate, object
+    sigs = {}
+    try:
+        for callee in ['_materialize_template', '_materialize_fnml_execution']:
+            sigs[callee] = py_params(src.func('materializer.py', callee))
+        if sigs['_materialize_fnml_execution'][0] != ['results_df', 'fnml_execution', 'fnml_df', 'config', 'position', 'termtype', 'datatype']:
+            raise Fail(f"_materialize_fnml_execution parameters {sigs['_materialize_fnml_execution'][0]}")
+        fn = src.func('materializer.py', '_materialize_rml_rule_terms')
+        names, defaults = py_params(fn)
+        if names != ['results_df', 'rml_rule', 'fnml_df', 'config', 'columns_alias'] or [ast.unparse(d) if d else None for d in defaults] != [None] * 4 + ["''"]:
+            raise Fail(f'parameters {names}')
+        d, tr = translate(fn, env, 'materialize_rml_rule_terms', [('rml_rule', 'rule'), ('columns_alias', 'str')],
+                          monad='Except Model.MatErr', frame='results_df', translated=(), rule='rml_rule', sigs=sigs,
+                          ret_cols=['subject', 'predicate', 'object'], rty='Str × Str × Str',
+                          extra=[('(prims : Prims)', 'prims'), ('(row : Str → Option Str)', 'row')],
+                          doc_extra=' (row-wise: the cells of the columns subject, predicate, object)')
+        defs.append(d)
+        info['materialize_rml_rule_terms'] = 'translated'
+    except (Fail, KeyError) as e:
+        failures.append(f'_materialize_rml_rule_terms: {e}')
+
+    # 5. the statements of materializer._materialize_rml_rule after the branch on the kind of rule: triple assembly and graph term
+    try:
+        fn = src.func('materializer.py', '_materialize_rml_rule')
+        names, _ = py_params(fn)
+        for need in ['rml_rule', 'config', 'nest_level']:
+            if need not in names:
+                raise Fail(f'_materialize_rml_rule has no parameter {need}')
+        body = strip_doc(fn.body)
+        start = [i for i, st in enumerate(body) if isinstance(st, ast.Assign) and ast.unparse(st.targets[0]) == "data['triple']"]
+        stop = [i for i, st in enumerate(body) if isinstance(st, ast.Assign) and ast.unparse(st.targets[0]) == 'data'
+                and isinstance(st.value, ast.Call) and isinstance(st.value.func, ast.Attribute) and st.value.func.attr == 'drop']
+        if len(start) != 1 or len(stop) != 1 or not start[0] < stop[0] or stop[0] != len(body) - 2 or not isinstance(body[-1], ast.Return) \
+                or ast.unparse(body[-1].value) != 'data':
+            raise Fail('shape of the end of _materialize_rml_rule (data[triple] = … ; … ; data = data.drop(…); return data)')
+        if not isinstance(body[start[0] - 1], ast.If):
+            raise Fail('the triple assembly does not directly follow the branch on the kind of rule')
+        seg = body[start[0]:stop[0]]
+        d, tr = translate(fn, env, 'assemble_triple', [('rml_rule', 'rule'), ('nest_level', 'nat')],
+                          monad='Except Model.MatErr', frame='data', rule='rml_rule', sigs=sigs, body=seg,
+                          input_cols=['subject', 'predicate', 'object'], ret_col="'triple'",
+                          extra=[('(prims : Prims)', 'prims'), ('(row : Str → Option Str)', 'row')],
+                          doc_extra=': its last statements, from `data[\'triple\'] = …` to the graph term (row-wise: the cell of column triple, given '
+                                    'the cells of subject, predicate, object)')
+        defs.append(d)
+        info['assemble_triple'] = 'translated'
+    except (Fail, KeyError) as e:
+        failures.append(f'_materialize_rml_rule (triple assembly): {e}')
+
     consts = []
     for k in ['RML_REFERENCE', 'RML_TEMPLATE', 'RML_CONSTANT', 'RML_IRI', 'RML_LITERAL', 'RML_BLANK_NODE', 'XSD_BOOLEAN', 'XSD_DATETIME',
-              'XSD_INTEGER', 'AUXILIAR_UNIQUE_REPLACING_STRING']:
+              'XSD_INTEGER', 'AUXILIAR_UNIQUE_REPLACING_STRING', 'RML_EXECUTION', 'RML_LANGUAGE_MAP', 'RML_DATATYPE_MAP', 'RML_DEFAULT_GRAPH', 'NQUADS']:
         if isinstance(env.get(k), str):
             USED_CONSTS.setdefault(k, env[k])
         else:
@@ -474,6 +618,7 @@ def generate(src, env, out, summary):
         consts.append(f'def {k} : Str := {lean_str(USED_CONSTS[k])}')
 
     ok = not failures
+    rule_struct = '\n'.join(f'  {f} : Str := []' for f in sorted(RULE_FIELDS)) or '  unused : Unit := ()'
     text = HEADER + f'''
 import MorphKgc.Model.Term
 import MorphKgc.Model.Canon
@@ -491,6 +636,14 @@ structure Prims where
   safe : Str
   /-- `utils.remove_non_printable_characters` (`str.isprintable` is the Unicode database's) -/
   removeNonPrintable : Str → Str
+  /-- `config.get_output_format()` -/
+  outputFormat : Str
+  /-- `_materialize_fnml_execution(df, execution, fnml_df, config, position, termtype, datatype)` row-wise (C14's domain: a parameter here) -/
+  fnml : (Str → Option Str) → Str → Str → Str → Str → Except Model.MatErr Str
+
+/-- one row of `rml_df` as the translated code reads it: `rml_rule['<field>']` -/
+structure PyRule where
+{rule_struct}
 
 /-- `results_df[name]` for a column the function does not assign: the cell of the input row (a missing column is the KeyError) -/
 def rowGet (row : Str → Option Str) (k : Str) : Except Model.MatErr Str :=
